@@ -728,6 +728,22 @@ func genProcs(repo, out string) {
 			calls: map[string]string{"pe.baselineAdminNetpol.Selects(dst, true)": "selectsDstRes", "pe.baselineAdminNetpol.Selects(src, false)": "selectsSrcRes",
 				"pe.baselineAdminNetpol.CheckIngressConnAllowed(src, dst, protocol, port)": "ingressCheck",
 				"pe.baselineAdminNetpol.CheckEgressConnAllowed(dst, protocol, port)":       "egressCheck"}},
+		{file: "pkg/netpol/eval/resources.go", fn: "PolicyEngine.insertAdminNetworkPolicy", lean: "insertAdminNetworkPolicy",
+			sig: "(e : Engine) (a : ANP) : Except Err Engine", muts: []string{"e"}, result: "e", locals: []string{"idx"},
+			atoms: map[string]string{"pe.exposureAnalysisFlag": "e.exposure", "pe.adminNetpolsMap[anp.Name]": "(e.anpNames.contains a.name)",
+				"(*k8s.AdminNetworkPolicy)(anp).HasValidPriority()": "a.validPriority",
+				"pe.sortedAdminNetpols[idx-1].Spec.Priority":        "(e.anps[idx - 1]?.map (·.prio))", "anp.Spec.Priority": "(some a.prio)", "0": "0"},
+			errs: map[string]string{"errors.New(netpolerrors.ExposureAnalysisDisabledWithANPs)": ".exposureWithANP",
+				"errors.New(netpolerrors.ANPsWithSameNameErr(anp.Name))":                                            ".dupANP",
+				"errors.New(netpolerrors.PriorityValueErr(anp.Name, anp.Spec.Priority))":                          ".anpPriority",
+				"errors.New(netpolerrors.SamePriorityErr(pe.sortedAdminNetpols[idx-1].Name, anp.Name))":          ".anpPriority"},
+			stmts: map[string]string{
+				"idx := sort.Search(len(pe.sortedAdminNetpols), func(i int) bool { return pe.sortedAdminNetpols[i].Spec.Priority > anp.Spec.Priority })": "let idx := (e.anps.takeWhile (fun b => !decide (b.prio > a.prio))).length -- sort.Search: the first index whose priority is greater (the list is kept sorted)",
+				"pe.adminNetpolsMap[anp.Name] = true":                                    "e := { e with anpNames := e.anpNames ++ [a.name] }",
+				"pe.sortedAdminNetpols = append(pe.sortedAdminNetpols, nil)":             "pure ()",
+				"copy(pe.sortedAdminNetpols[idx+1:], pe.sortedAdminNetpols[idx:])":       "pure ()",
+				"pe.sortedAdminNetpols[idx] = (*k8s.AdminNetworkPolicy)(anp)":            "e := { e with anps := e.anps.take idx ++ [a] ++ e.anps.drop idx }",
+				"pe.cache.clear()":                                                       "pure ()"}},
 		{file: "pkg/netpol/eval/resources.go", fn: "PolicyEngine.insertBaselineAdminNetworkPolicy", lean: "insertBaselineAdminNetworkPolicy",
 			sig:  "(e : Engine) (b : BANP) : Except Err Engine", muts: []string{"e"}, result: "e",
 			atoms: map[string]string{"pe.exposureAnalysisFlag": "e.exposure", "pe.baselineAdminNetpol != nil": "e.banp.isSome", "banp.Name": "b.name"},
